@@ -48,10 +48,24 @@ func snap(b baggage.Baggage) []rmem {
 	out := make([]rmem, len(ms))
 	for i, m := range ms {
 		out[i] = rmem{k: m.Key(), v: m.Value(), props: snapProps(m.Properties())}
+		// the keyed accessor agrees with the list
+		if km := b.Member(m.Key()); km.Key() != m.Key() || km.Value() != m.Value() || canonAll([]rmem{{k: km.Key(), v: km.Value(), props: snapProps(km.Properties())}}, true) != canonAll([]rmem{out[i]}, true) {
+			c11AccessorMismatch = append(c11AccessorMismatch, "Member("+strconv.Quote(m.Key())+") differs from the entry of Members()")
+		}
+	}
+	if b.Len() != len(ms) {
+		c11AccessorMismatch = append(c11AccessorMismatch, "Len() = "+strconv.Itoa(b.Len())+", Members() lists "+strconv.Itoa(len(ms)))
+	}
+	if am := b.Member("c11-absent-key"); am.Key() != "" || am.Value() != "" || len(am.Properties()) != 0 {
+		c11AccessorMismatch = append(c11AccessorMismatch, "Member(<absent key>) is not the zero Member")
 	}
 	sort.SliceStable(out, func(i, j int) bool { return out[i].k < out[j].k })
 	return out
 }
+
+// c11AccessorMismatch collects disagreements between Members(), Member(key) and Len() seen by snap;
+// the case functions report and clear it.
+var c11AccessorMismatch []string
 
 func appendProp(b []byte, p rprop) []byte {
 	b = strconv.AppendQuote(b, p.k)
